@@ -39,19 +39,19 @@ def worker_init(tier):
 
 def BOUNDS(tier):
     q = tier == "quick"
-    return dict(G1="%d base combinations x %s" % ((9, "6 r x 12 theta x 12 phi x 2 faces") if q else (15, "11 r x 18 theta x 18 phi x 2 faces x 3 rises x 3 tilts")),
+    return dict(G1="%d base combinations x %s" % ((9, "6 r x 12 theta x 12 phi x 2 faces") if q else (15, "11 r x 18 theta x 18 phi x 2 faces x 3 rises x 2 tilts")),
                 G2="pairs of the first %d committed seed placements per (central base, edge)" % (8 if q else 14), G3_files=len(G3_Q if q else G3_T),
-                G4="schedules d<=%d on every %s G1 case and every G2 case with a reported interaction" % ((1, "16th") if q else (2, "5th")))
+                G4="schedules d<=%d on every %s G1 case and every G2 case with a reported interaction" % ((1, "16th") if q else (2, "12th")))
 
 
 def g4_cases(tier):
     q = tier == "quick"
-    step = 16 if q else 5
+    step = 16 if q else 12
     for k, c in enumerate(fam.g1_pairs("quick")):
         if k % step == 0:
             yield dict(c, schedules=True)
     for k, c in enumerate(fam.g2("quick")):
-        if k % (3 if q else 1) == 0:
+        if k % 3 == 0:
             yield dict(c, schedules=True)
 
 
